@@ -79,11 +79,52 @@ class C01(Prop):
         await self.rig.close()
 
     def cases(self, tier, seed, shard, nshards):
+        yield {"crc_targets": True, "shard": shard}
         n = {"quick": 9600, "thorough": 160_000}[tier]
         for i in range(shard, n, nshards):
             yield {"i": i, "seed": seed}
 
+    def _crc_targets(self, case, acc):
+        """Frames whose CRC lands on the values an off-by-one in a table or a sign error would trip over (0000, ffff, 00ff, ...):
+        a session id is searched for that gives the unsigned frame that CRC, then the library signs it."""
+        import aioswitcher.device.tools as tools
+
+        from ..props.c04 import FRAME_KINDS
+        from ..ref import crc as _crc
+        from ..selftest import DEV, KEY, TS
+
+        targets = [0xFFFF, 0x0000, 0x00FF, 0xFF00, 0xFFFE, 0x0001, 0x8000, 0x7FFF, 0xFEF0, 0xF0FE, 0x3030, 0x0A0A, 0x1021, 0x1D0F, 0x0100, 0x00FE]
+        target = targets[case["shard"] % len(targets)]
+        for kind_no in (case["shard"] % len(FRAME_KINDS), (case["shard"] + 5) % len(FRAME_KINDS)):
+            k, a = FRAME_KINDS[kind_no]
+            base = bytearray(frames.build(k, bytes(4), TS, DEV, KEY, a)[:-4])
+            found = None
+            for s in range(65536):
+                base[8:10] = s.to_bytes(2, "big")
+                if _crc.crc16_fast(bytes(base)) == target:
+                    found = bytes(base)
+                    break
+            acc.ev()
+            if found is None:
+                acc.count("crc_targets_not_reachable_with_two_session_bytes")
+                continue
+            acc.count("frames_signed_whose_crc_is_a_boundary_value")
+            want = found + _crc.sign(found)
+            try:
+                got = bytes.fromhex(tools.sign_packet_with_crc_key(found.hex()))
+            except Exception as exc:
+                acc.violation(f"signature:{k}", f"signing a {k} frame whose CRC-16 is {target:04x} raised {type(exc).__name__}: {exc}", {"frame": found.hex()})
+                continue
+            for name, rc in self.recs.items():
+                rc.drain()
+            if got != want:
+                acc.violation(f"signature:{k}", f"a {k} frame whose CRC-16 is {target:04x}: the library appended {got[len(found):].hex()!r} ({len(got) - len(found)} bytes), "
+                              f"the signature is {want[-4:].hex()}", {"frame": found.hex(), "crc": f"{target:04x}"})
+
     async def run_case(self, case, acc, ctx):
+        if case.get("crc_targets"):
+            self._crc_targets(case, acc)
+            return
         r = env.rng("C01", case["seed"], case["i"])
         t = 1 if r.random() < 0.5 else 2
         dev_id, key = gen.device_id(r), gen.device_key(r)
